@@ -2562,7 +2562,7 @@ func TestVerifC03Late(t *testing.T) {
 	if h == nil {
 		t.Skip("VERIF_OUT not set")
 	}
-	n := h.N(40, 308) // cases 0-7: the directed histories of c03LateCase (bound pods), then the random stream
+	n := h.N(44, 312) // cases 0-7: the directed histories of c03LateCase (bound pods), 8-11: directed relabel histories, then the random stream
 	full := [c03D]bool{true, true, true}
 	dmax := c03RL{has: full, v: [c03D]int64{8000, 16, 4}}
 	t.Run("late", func(t *testing.T) {
@@ -2580,7 +2580,9 @@ func TestVerifC03Late(t *testing.T) {
 		"1/3 of the new pods are ALREADY BOUND when first seen (OnPodAdd of an object with a node name); ordinary updates (old and new object bound) of bound pods, " +
 		"also between a group's creation and the tick; OnQuotaDelete of a planned group (its pods are held by no group afterwards) and its re-creation, after which " +
 		"the dropped pods come back by an ordinary update; cases 0-7 directed (running pod seen before its group exists / group deleted and re-created, then a " +
-		"second pod asks for admission); non-trivial = an assigned pod was migrated or a bound pod was filed by an update; distinct by op lines")
+		"second pod asks for admission); cases 8-11 directed relabel histories and about 5% of the random events: ONE OnPodUpdate whose new object names another " +
+		"registered group (held pod, or a running pod whose group was deleted and re-created under it), with or without the binding in the same event; " +
+		"non-trivial = an assigned pod was migrated, a bound pod was filed by an update or a pod was relabelled; distinct by op lines")
 }
 
 func c03LateCase(t *testing.T, h *vHarness, suit *pluginTestSuit, idx int, dmax c03RL) {
@@ -2683,6 +2685,32 @@ func c03LateCase(t *testing.T, h *vHarness, suit *pluginTestSuit, idx int, dmax 
 		if p.id == pending {
 			pending = 0
 		}
+		w.dump()
+	}
+	// relabel (ninth round): ONE OnPodUpdate whose new object names another registered group nl (different-quota branch
+	// of GroupQuotaManager.OnPodUpdate), with bind = the new object also gets the node name.  The old group gives back
+	// whatever it holds of the pod; the new group files the pod and counts it as used iff the NEW OBJECT is bound -
+	// also when the old group did not hold the pod as assigned (it was deleted and re-created under the running pod, or
+	// the same event carries the binding: a re-list after a dropped watch).
+	relabel := func(p *c03Pod, nl int, bind bool) {
+		old := p.obj
+		neu := old.DeepCopy()
+		neu.Labels[extension.LabelQuotaName] = c03QName(nl)
+		if bind {
+			neu.Spec.NodeName = "n1"
+		}
+		neu.ResourceVersion = fmt.Sprint(1000 + step0)
+		step0++
+		isBound := neu.Spec.NodeName != ""
+		h.Op("podrelabel %d %d %d", p.id, nl, vB(isBound))
+		h.Tag(fmt.Sprintf("late:relabel:held=%v:was-assigned=%v:old-bound=%v:new-bound=%v", p.inCache, p.assigned, old.Spec.NodeName != "", isBound))
+		gp.OnPodUpdate(old, neu)
+		label[p.id] = nl
+		p.obj = neu
+		p.quota, p.inCache, p.assigned = nl, true, isBound
+		delete(dropped, p.id)
+		pending = 0
+		h.Nontrivial()
 		w.dump()
 	}
 	register := func(id int) {
@@ -2860,6 +2888,40 @@ func c03LateCase(t *testing.T, h *vHarness, suit *pluginTestSuit, idx int, dmax 
 		h.Tag("late:directed")
 		return
 	}
+	if idx < 12 {
+		// directed relabel histories (ninth round): groups 3 and 4 (max cpu 10, memory 20), pod 1 (cpu 6) labelled 3,
+		// pod 2 (cpu 6) labelled 4.
+		//  8-9   pod 1 RUNNING in group 3; group 3 deleted and re-created (no update of pod 1: the fresh group does not
+		//        hold it); pod 1 relabelled to group 4 (old and new object bound); pod 2 asks for admission (6 + 6 > 10).
+		//  10-11 pod 1 pending in group 3; ONE update binds it and relabels it to group 4; pod 2 asks for admission.
+		forced = 2
+		for _, id := range []int{3, 4} {
+			if w.quotas[id] == nil {
+				w.quotas[id] = &c03Quota{id: id, lent: true}
+				planned = append(planned, id)
+			}
+			w.quotas[id].max = c03RL{has: [c03D]bool{true, true, false}, v: [c03D]int64{10000, 20, 0}}
+			w.quotas[id].min = c03RL{}
+			register(id)
+		}
+		req := c03RL{has: [c03D]bool{true, true, false}, v: [c03D]int64{6000, 1, 0}}
+		p1 := newPod(1, 3, false, req, idx < 10)
+		if idx < 10 {
+			dropQuota(3)
+			register(3)
+		}
+		relabel(p1, 4, true)
+		p2 := newPod(2, 4, false, req, false)
+		if w.attempt(p2) {
+			h.Op("res %d", p2.id)
+			gp.Reserve(context.TODO(), framework.NewCycleState(), p2.obj, "n1")
+			p2.assigned = true
+			w.dump()
+		}
+		update(p1) // an ordinary update afterwards: changes nothing
+		h.Tag("late:directed-relabel")
+		return
+	}
 	recreate := func(p *c03Pod) { // a deleted pod comes back under the same name: new object, new UID, new request
 		for len(p.stale) <= p.inc {
 			p.stale = append(p.stale, nil)
@@ -2923,6 +2985,26 @@ func c03LateCase(t *testing.T, h *vHarness, suit *pluginTestSuit, idx int, dmax 
 				p.assigned = true
 			}
 			w.dump()
+		case k >= 40 && k < 45:
+			// the quota label of a pod changes (a held pod that is not waiting for a tick, or a running pod whose group was
+			// deleted under it); the new label names another REGISTERED planned group.  A pod assigned by Reserve only (no
+			// node name yet) gets the binding in the same event; a pending one with chance 1/2 (bind + relabel in one event)
+			p := pick(func(p *c03Pod) bool {
+				return (p.inCache && !waiting(p) && p.quota == home(p.id)) || (!p.inCache && dropped[p.id])
+			})
+			if p == nil {
+				continue
+			}
+			var cands []int
+			for _, id := range planned {
+				if w.quotas[id].added && id != home(p.id) {
+					cands = append(cands, id)
+				}
+			}
+			if len(cands) == 0 {
+				continue
+			}
+			relabel(p, cands[r.Intn(len(cands))], p.assigned || (p.obj.Spec.NodeName == "" && r.Bool()))
 		case k < 45:
 			p := pick(func(p *c03Pod) bool { return p.inCache && !p.assigned })
 			if (p == nil || r.Chance(1, 3)) && len(w.pods) < 10 {
